@@ -105,7 +105,12 @@ pub fn run_word_at(c: &Case, virtual_now: Option<i128>) -> Run {
         before = v;
         after = v;
     }
-    // batteries_run pushes one entry per Build (and one per failing claim constructor: none with our values)
+    observe(c, outs, before, after)
+}
+
+/// turn the outcomes of one builder's operations into the observations the checkers judge (tokens are read back)
+pub fn observe(c: &Case, outs: Vec<Out<String>>, before: i128, after: i128) -> Run {
+    // one entry per Build (and one per failing claim constructor: none with our values)
     let mut builds = Vec::new();
     let mut footer: Option<String> = None;
     let mut ia: Option<String> = None;
@@ -133,6 +138,63 @@ pub fn run_word_at(c: &Case, virtual_now: Option<i128>) -> Run {
         }
     }
     Run { before, after, builds }
+}
+
+/// Two builders alive at once on one thread, their operations interleaved in a seeded order (the second builder is created
+/// when its first operation is due).  Each builder must behave exactly as if it were alone: state that leaks between
+/// builder objects (a per-thread or process-wide scratch set, a cache keyed by something two builders share) shows up as a
+/// missed or an invented duplicate (C17) or as foreign/absent default claims (C13).
+#[derive(Clone, Debug, Serialize, Deserialize)]
+pub struct PairCase {
+    pub a: Case,
+    pub b: Case,
+    /// false = next operation of a, true = next operation of b
+    pub schedule: Vec<bool>,
+}
+
+pub fn run_pair(prop: &str, pc: &PairCase, r: &mut Report) {
+    let before = util::now_unix_nanos();
+    let mut sa = batteries_session(pc.a.p, &pc.a.key);
+    let mut sb: Option<Box<dyn BSession>> = None;
+    let (mut ia, mut ib) = (0usize, 0usize);
+    let (mut oa, mut ob) = (Vec::new(), Vec::new());
+    for &which in &pc.schedule {
+        if !which {
+            if let Some(op) = pc.a.ops.get(ia) {
+                ia += 1;
+                if let Some(o) = sa.step(op) {
+                    oa.push(o);
+                }
+            }
+        } else if let Some(op) = pc.b.ops.get(ib) {
+            ib += 1;
+            let s = sb.get_or_insert_with(|| batteries_session(pc.b.p, &pc.b.key));
+            if let Some(o) = s.step(op) {
+                ob.push(o);
+            }
+        }
+    }
+    let after = util::now_unix_nanos();
+    let (ra, rb) = (observe(&pc.a, oa, before, after), observe(&pc.b, ob, before, after));
+    let mut tmp = Report::new();
+    for (c, run) in [(&pc.a, &ra), (&pc.b, &rb)] {
+        if prop == "C13" {
+            check_c13(c, run, &mut tmp)
+        } else {
+            check_c17(c, run, &mut tmp)
+        }
+    }
+    // re-label: the replay of such a case needs both builders and the schedule
+    let n = tmp.violations.len();
+    for v in tmp.violations.iter_mut() {
+        v.sig = format!("{} [two interleaved builders]", v.sig);
+        v.desc = format!("with two builders interleaved on one thread ({} | {}; schedule {}): {}", word_string(&pc.a.ops), word_string(&pc.b.ops), pc.schedule.iter().map(|b| if *b { 'b' } else { 'a' }).collect::<String>(), v.desc);
+        v.replay = json!({"cmd": format!("{}-pair", prop), "case": pc});
+    }
+    if n == 0 {
+        r.count("interleaved builder pairs conform");
+    }
+    r.merge(tmp);
 }
 
 /// model state after the first `upto` ops
@@ -534,6 +596,69 @@ pub fn run(prop: &str, tier: &str, seed: u64) -> Report {
         r.count(&format!("random words {}", p.name()));
     });
     total.merge(r);
+    // different keys that collide under common hashes / truncations are NOT a repetition (C17), and both must arrive (C13: n/a)
+    if prop == "C17" {
+        let mut rc = Report::new();
+        let pairs = crate::gens::colliding_key_pairs();
+        for (i, (a, b)) in pairs.iter().enumerate() {
+            for flip in [false, true] {
+                let (x, y) = if flip { (b, a) } else { (a, b) };
+                let p = if i % 4 == 0 { P::V4P } else { P::V4L };
+                let mut ops = vec![BOp::Set(Claim::Custom(x.clone(), json!(1))), BOp::Set(Claim::Sub("s".into())), BOp::Set(Claim::Custom(y.clone(), json!(2))), BOp::Build];
+                if flip {
+                    // ... and a real repetition of one of them afterwards is still one
+                    ops.push(BOp::Set(Claim::Custom(x.clone(), json!(3))));
+                    ops.push(BOp::Build);
+                }
+                let c = Case { p, key: pools.key(p, 0), ops };
+                let before = rc.violations_total;
+                judge(prop, &c, &mut rc);
+                if rc.violations_total == before {
+                    rc.count("colliding-key pairs judged as different keys");
+                }
+            }
+        }
+        rc.require("colliding-key pairs judged as different keys", 60);
+        total.merge(rc);
+    }
+    // two builders alive at once, operations interleaved: each must behave as if alone
+    {
+        let npairs = if thorough { 40_000 } else { 3_000 };
+        let r = parallel(npairs, util::threads(), |i, r| {
+            let mut rng = Rng::new(seed, "c13-pairs", (i as u64) << 1 | (prop == "C17") as u64);
+            // same protocol half of the time (one monomorphisation), different ones otherwise (state shared across them)
+            let pa = ALL[rng.below(ALL.len())];
+            let pb = if rng.chance(1, 2) { pa } else { ALL[rng.below(ALL.len())] };
+            // RSA signing is slow: keep v1.public pairs rare
+            let (pa, pb) = if (pa == P::V1P || pb == P::V1P) && i % 16 != 0 { (P::V4L, if pb == P::V1P { P::V4P } else { pb }) } else { (pa, pb) };
+            let mk = |rng: &mut Rng, p: P, j: usize| {
+                let len = 1 + rng.below(5);
+                let syms: Vec<usize> = (0..len).map(|_| if rng.chance(1, 6) { k - 1 } else { rng.below(k - 1) }).collect();
+                Case { p, key: pools.key(p, j % pools.count(p)), ops: syms_to_ops(prop, &syms) }
+            };
+            let a = mk(&mut rng, pa, 0);
+            let b = mk(&mut rng, pb, 1);
+            let mut schedule: Vec<bool> = std::iter::repeat(false).take(a.ops.len()).chain(std::iter::repeat(true).take(b.ops.len())).collect();
+            rng.shuffle(&mut schedule);
+            let pc = PairCase { a, b, schedule };
+            // clock-dependent verdicts are re-established on a fresh execution, as for single builders
+            let mut attempt = 0;
+            loop {
+                let mut tmp = Report::new();
+                run_pair(prop, &pc, &mut tmp);
+                let clocky = tmp.violation_sigs.keys().any(|k| k.contains("default-iat-wrong") || k.contains("default-nbf-wrong") || k.contains("default-lifetime-wrong"));
+                if clocky && attempt < 2 {
+                    attempt += 1;
+                    r.discard("clock-dependent verdict re-established on a fresh execution");
+                    continue;
+                }
+                r.merge(tmp);
+                break;
+            }
+        });
+        total.merge(r);
+        total.require("interleaved builder pairs conform", (npairs / 2) as u64);
+    }
     // builders created at MANY instants of the virtual clock: defaults must be exactly (now+1h, now, now)
     if prop == "C13" {
         let mut vn: Vec<i128> = [1i128, 951_865_199, 951_868_799, 978_303_600, 978_307_199, 2_147_480_048, 2_147_483_647, 4_102_441_200, 4_102_444_799, 9_223_368_436, 9_223_372_036, 32_503_676_400, 221_845_388_399]
@@ -546,6 +671,24 @@ pub fn run(prop: &str, tier: &str, seed: u64) -> Report {
         }
         vn.push(1_790_000_000_999_999_999);
         let words: Vec<Vec<usize>> = vec![vec![], vec![3], vec![11, 11], vec![5], vec![1, 11, 0], vec![4, 11, 5]];
+        // Is the hook on the builder's path at all?  A builder created with the virtual clock at 2100-01-01 must not stamp
+        // the REAL current time: if it does, the builder no longer consults the hooked time source (a refactoring) and the
+        // instants below would be judged against real-clock defaults — skipped as inconclusive, never a violation.
+        let live = {
+            let c = Case { p: P::V4L, key: pools.key(P::V4L, 0), ops: syms_to_ops(prop, &[]) };
+            let before = util::now_unix_nanos();
+            let run = run_word_at(&c, Some(4_102_444_800i128 * 1_000_000_000));
+            let after = util::now_unix_nanos();
+            let iat = run.builds.first().and_then(|b| b.payload.as_ref()).and_then(|m| m.get("iat")).and_then(|v| v.as_str()).and_then(parse_rfc3339);
+            match iat {
+                Some(t) if t >= before - 5_000_000 && t <= after + 5_000_000 => false,
+                _ => true,
+            }
+        };
+        if !live {
+            total.inconclusive.push("virtual-clock hook not reached by PasetoBuilder::default() (a builder created with the virtual clock at 2100-01-01 stamped the real time): virtual-clock builders skipped".into());
+        }
+        let vn = if live { vn } else { Vec::new() };
         let r = parallel(vn.len(), util::threads(), |i, r| {
             let p = [P::V4L, P::V4L, P::V2L, P::V4P, P::V3L, P::V1L][i % 6];
             let c = Case { p, key: pools.key(p, i % pools.count(p)), ops: syms_to_ops(prop, &words[i % words.len()]) };
@@ -557,7 +700,9 @@ pub fn run(prop: &str, tier: &str, seed: u64) -> Report {
             }
         });
         total.merge(r);
-        total.require("builders created on the virtual clock conform", 300);
+        if live {
+            total.require("builders created on the virtual clock conform", 300);
+        }
     }
     total.require("exhaustive words (v4.local)", totalw as u64);
     for &p in &ALL {
@@ -588,5 +733,14 @@ pub fn replay(prop: &str, case: &Value) -> Report {
     r
 }
 
-pub const RULE_C13: &str = "call words over {set exp, set nbf, set iat, set iss, set custom a, set custom 'Exp' / 'IAT' / 'Nbf' (custom claims that equal a time claim up to case), acknowledge, set_footer, set_implicit_assertion, build} (a final build is appended to words that do not end in one): ALL words up to length 4 (thorough 6) on v4.local, seeded random words up to length 12 on all 8 protocols; plus 614 (thorough 20014) builders created at instants of a VIRTUAL clock (hook verif::set_now: year/leap-day boundaries, 2^31 s, the i64-ns limit, up to year 8999, random, odd sub-second parts) whose defaults must be exactly (now+1h, now, now). Every token of every successful build (first and later builds of one builder) is read back and compared with a state machine written from the property: exp present iff not acknowledged; default exp == creation + 3600.000000000 s, default iat == default nbf within the clock bracket taken around the run (5 ms slack); caller-supplied exp/iat/nbf values present. distinct_nontrivial = distinct (protocol, word, build number) that built and conformed";
-pub const RULE_C17: &str = "call words over {set_claim(k) for k in exp,nbf,iat,iss,sub,aud,jti,a,b,userId,Role,role; acknowledge; set_footer; build} (a final build appended): ALL words up to length 4 (thorough 5) on v4.local, seeded random words up to length 40 on all 8 protocols; every occurrence of a setter uses a different value. Model: once any key has been supplied twice every build must fail with the duplicate-claim error naming one of the duplicated keys; otherwise every build must succeed and carry the caller's values; exp supplied after the acknowledgement may be refused as duplicate or ignored. distinct_nontrivial = distinct (protocol, word, build number, outcome class)";
+pub fn replay_pair(prop: &str, case: &Value) -> Report {
+    let mut r = Report::new();
+    match serde_json::from_value::<PairCase>(case.clone()) {
+        Ok(c) => run_pair(prop, &c, &mut r),
+        Err(e) => r.inconclusive.push(format!("cannot decode replay case: {}", e)),
+    }
+    r
+}
+
+pub const RULE_C13: &str = "call words over {set exp, set nbf, set iat, set iss, set custom a, set custom 'Exp' / 'IAT' / 'Nbf' (custom claims that equal a time claim up to case), acknowledge, set_footer, set_implicit_assertion, build} (a final build is appended to words that do not end in one): ALL words up to length 4 (thorough 6) on v4.local, seeded random words up to length 12 on all 8 protocols; plus 614 (thorough 20014) builders created at instants of a VIRTUAL clock (hook verif::set_now: year/leap-day boundaries, 2^31 s, the i64-ns limit, up to year 8999, random, odd sub-second parts) whose defaults must be exactly (now+1h, now, now). Plus 3000 (thorough 40000) PAIRS of builders (same or different protocols) alive at once on one thread with their operations interleaved in a seeded order: each must behave exactly as if it were alone. Every token of every successful build (first and later builds of one builder) is read back and compared with a state machine written from the property: exp present iff not acknowledged; default exp == creation + 3600.000000000 s, default iat == default nbf within the clock bracket taken around the run (5 ms slack); caller-supplied exp/iat/nbf values present. distinct_nontrivial = distinct (protocol, word, build number) that built and conformed";
+pub const RULE_C17: &str = "call words over {set_claim(k) for k in exp,nbf,iat,iss,sub,aud,jti,a,b,userId,Role,role; acknowledge; set_footer; build} (a final build appended): ALL words up to length 4 (thorough 5) on v4.local, seeded random words up to length 40 on all 8 protocols; 3000 (thorough 40000) PAIRS of builders (same or different protocols) alive at once on one thread with their operations interleaved in a seeded order, each judged as if alone; every occurrence of a setter uses a different value. Plus ~45 pairs of DIFFERENT custom keys that collide under FNV-1/1a, the 31-multiplier hash, djb2, CRC-32, byte sums, truncation (8..256 bytes, u8/u16 characters), NFC/NFD or an embedded NUL: setting both is not a repetition, setting one of them again is. Model: once any key has been supplied twice every build must fail with the duplicate-claim error naming one of the duplicated keys; otherwise every build must succeed and carry the caller's values; exp supplied after the acknowledgement may be refused as duplicate or ignored. distinct_nontrivial = distinct (protocol, word, build number, outcome class)";
